@@ -85,6 +85,10 @@ def configs(tier):
                         continue
                     out.append(dict(entry='Gillespie_complex_contagion', model=model, graph=g, ic=ic, full=full, max_expo=E, truncate=True,
                                     wstub='abstract', tags=[model, g, 'full' if full else 'plain']))
+                if g in ('K2', 'P3') or tier == 'thorough':
+                    # finite symbolic horizon: nothing may be reported at or after tmax
+                    out.append(dict(entry='Gillespie_complex_contagion', model=model, graph=g, ic=ic, full=(g == 'K2'), max_expo=E - 1, truncate=True,
+                                    tmax='sym', wstub='abstract', tags=[model, g, 'tmax']))
     return out
 
 
@@ -119,6 +123,11 @@ def run_path(h, cfg):
     gillaw.uninstall_weighted_choice_stub(sim)
     gillaw.install_abstract_weighted_set(sim)
     tmin = eng.real('tmin')
+    tmax = INF
+    if cfg.get('tmax') == 'sym':
+        tmax = eng.real('tmax')
+        if eng.mode == 'sym':
+            eng.assume(lift(tmax) > lift(tmin))
     current = {n: cfg['ic'][i] for i, n in enumerate(nodes)}
     IC = dict(current)
     answers = []
@@ -144,7 +153,7 @@ def run_path(h, cfg):
         return m['influence'](G_, u, status, parameters)
     f = EoN.Gillespie_complex_contagion
     ret = h.call_must_succeed('no-exception', f, G, rate_function, transition_choice, get_influence_set, IC, tuple(m['statuses']),
-                              tmin=tmin, tmax=INF, parameters=params, return_full_data=cfg['full'])
+                              tmin=tmin, tmax=tmax, parameters=params, return_full_data=cfg['full'])
     h.truncated = stub.truncated
     if ret is None:
         return None
@@ -187,6 +196,9 @@ def run_path(h, cfg):
     h.require('t0=tmin', EQ(t[0], tmin), None)
     for a, b in zip(t, t[1:]):
         h.require('time-ordered', LT(a, b), None)
+    if tmax != INF:
+        for x in t:
+            h.require('t<tmax', LT(x, tmax), {'t': show(x)})
     return {'t': t, 'rows': got}
 
 
@@ -197,6 +209,8 @@ def event_of_step(chosen, status, draws):
 
 
 def post(cfg, records, eng):
+    if cfg.get('tmax') == 'sym':
+        return []      # finite-horizon runs check the cut-off only; the law obligations are discharged on the unbounded-horizon configurations
     G = graphs.make(cfg['graph'])
     m = MODELS[cfg['model']]
     params = {k: Sym(z3.Real(k)) for k in m['params']}
